@@ -9,7 +9,7 @@
 //!     resolver, and identical after the JSON round trip.
 
 use std::{
-    collections::{BTreeMap, HashSet},
+    collections::{BTreeMap, HashMap, HashSet},
     panic::{catch_unwind, AssertUnwindSafe},
 };
 
@@ -640,13 +640,16 @@ pub fn main(args: &Args, threads: usize) -> ! {
     for level in 0..vmax {
         let seqs = if level == 0 { &seqs1 } else { &seqs2 };
         let chunks: Vec<&[(Vec<TStep>, usize)]> = frontier.chunks((frontier.len() / threads.max(1)).max(1)).collect();
-        let results: Vec<(u64, Vec<(Vec<(usize, usize, usize, bool)>, Vec<TStep>)>, Vec<Violation>)> = std::thread::scope(|s| {
+        let results: Vec<(u64, HashMap<Vec<(usize, usize, usize, bool)>, Vec<TStep>>, Vec<Violation>)> = std::thread::scope(|s| {
             let hs: Vec<_> = chunks
                 .iter()
                 .map(|chunk| {
                     s.spawn(move || {
                         let mut t = 0u64;
-                        let mut new = vec![];
+                        // one representative (the smallest history) per key, kept per thread: the
+                        // list of all transitions of a level does not fit in memory at the deeper bounds
+                        let mut new: HashMap<Vec<(usize, usize, usize, bool)>, Vec<TStep>> = HashMap::new();
+                        let last_level = level + 1 == vmax;
                         let mut bad = vec![];
                         for (hist, m) in chunk.iter() {
                             for rem in subsets(*m, rmax) {
@@ -662,7 +665,17 @@ pub fn main(args: &Args, threads: usize) -> ! {
                                             Ok(obs) => {
                                                 let last = obs.last().cloned().unwrap_or_default();
                                                 let key: Vec<(usize, usize, usize, bool)> = last.iter().map(|d| (d.4, d.2, d.3, d.5)).collect();
-                                                new.push((key, h2));
+                                                match new.get_mut(&key) {
+                                                    // the states of the last level are only counted
+                                                    None => {
+                                                        new.insert(key, if last_level { vec![] } else { h2 });
+                                                    }
+                                                    Some(old) => {
+                                                        if !last_level && h2 < *old {
+                                                            *old = h2;
+                                                        }
+                                                    }
+                                                }
                                             }
                                             Err((k, txt)) => {
                                                 if bad.len() < 50 {
